@@ -147,11 +147,12 @@ PROPS = {
         "partial": [], "assumptions": CONN_ASSUMPTIONS,
     },
     "C12": {
-        "batches": conn_batches([("c12", 500)], [("c12", 8000), ("mixed", 2000)]),
+        "batches": lambda tier: conn_batches([("c12", 500)], [("c12", 8000), ("mixed", 2000)])(tier) + ctl_batches("idle", 200, 4000, per=100)(tier),
         "replay_bin": "pristine", "need": ["seq", "heads", "wire", "eof", "nohang"], "agr_need": ["seq", "heads", "wire", "eof"],
-        "rule": "version {1.0,1.1} x Connection header {absent, close, keep-alive, upgrade, other tokens, lists, letter case, substrings} at every pipeline position, "
-                "arbitrary bytes after the last request, client half-closing or keeping the connection open",
-        "required_tags": ["mode:open", "mode:halfclose", "end:waiting", "end:closed"],
+        "rule": "version {1.0,1.1} x Connection header {absent, close, keep-alive, upgrade, other tokens, lists (also keep-alive next to close / upgrade), letter case, substrings} "
+                "at every pipeline position, arbitrary bytes after the last request, client half-closing or keeping the connection open; idle: the same conversations on the "
+                "controlled build with 1 s .. 1 h of virtual silence between or inside requests and handlers that take 6..12 s",
+        "required_tags": ["mode:open", "mode:halfclose", "end:waiting", "end:closed", "fam:idle"],
         "partial": [], "assumptions": CONN_ASSUMPTIONS,
     },
     "C16": {
@@ -171,22 +172,26 @@ PROPS = {
         "partial": [], "assumptions": CONN_ASSUMPTIONS,
     },
     "C07": {
-        "batches": ctl_batches("queue", 3000, 60000),
+        "batches": lambda tier: ctl_batches("queue", 3000, 60000)(tier) + ctl_batches("srvq", 400, 9000, per=200)(tier),
         "replay_bin": "controlled", "oracle_col": "C07", "agree_col": "aC07",
         "rule": "MessagesQueue of the generated copy under the deterministic scheduler: 1..3 producers (push / unblock at virtual times chosen around the receivers' "
                 "timeout expiry) x 1..4 receivers mixing pop / try_pop / pop_timeout; random schedules incl. timers firing while threads are runnable; "
-                "every run is replayed on the Lean LTS (trace acceptance) and the exactly-once / FIFO / no-lost-wake-up predicate is evaluated on the implementation's history",
-        "required_tags": ["ptimer:0", "ptimer:200", "timedtook:1", "timeoutexp:1", "blocked:1", "left:1", "unblock:1"],
+                "every run is replayed on the Lean LTS (trace acceptance) and the exactly-once / FIFO / no-lost-wake-up predicate is evaluated on the implementation's history; "
+                "srvq: the same programs against the whole Server of the generated copy (every producer a client connection on the in-memory network sending /r<v>, receivers calling "
+                "recv / try_recv / recv_timeout, unblock through Server::unblock; bursts of 5..8 connections, 5..12 s of virtual silence, then new connections), replayed on the same LTS "
+                "with anonymous pushes matched one-to-one against the delivered requests",
+        "required_tags": ["ptimer:0", "ptimer:200", "timedtook:1", "timeoutexp:1", "blocked:1", "left:1", "unblock:1", "srv:1", "burst:1"],
         "partial": ["theorem: exactly-once/FIFO and no-lost-wake-up invariants of the queue LTS for all schedules",
                     "that a connection pushes its requests in parse order is the connection-loop model (C12.trace_extends_state); real-thread scheduling is sampled by C06/C11's pristine runs"],
         "assumptions": CTL_ASSUMPTIONS,
     },
     "C17": {
-        "batches": ctl_batches("queue", 3000, 60000),
+        "batches": lambda tier: ctl_batches("queue", 3000, 60000)(tier) + ctl_batches("srvq", 400, 9000, per=200)(tier),
         "replay_bin": "controlled", "oracle_col": "C17", "agree_col": "aC17",
         "rule": "same scenarios as C07 (unblock issued before, while and after receivers block); token accounting, try_pop non-blocking and the recv_timeout bounds are "
-                "evaluated on the implementation's history with virtual-clock durations compared exactly with the LTS",
-        "required_tags": ["ptimer:0", "unblock:1", "timed:1", "timeoutexp:1"],
+                "evaluated on the implementation's history with virtual-clock durations compared exactly with the LTS; in zero-latency runs every unblock must release a "
+                "waiting receiver at the very instant it is issued (or leave nobody waiting); srvq: the same through Server::recv / try_recv / recv_timeout / unblock",
+        "required_tags": ["ptimer:0", "unblock:1", "timed:1", "timeoutexp:1", "srv:1"],
         "partial": ["theorem: token conservation, try_recv non-blocking, recv_timeout bounds on the zero-latency LTS", "scheduling latency of real threads is outside the model"],
         "assumptions": CTL_ASSUMPTIONS,
     },
@@ -196,7 +201,7 @@ PROPS = {
         "rule": "TaskPool of the generated copy under the deterministic scheduler: bursts of 1..40 tasks (gaps 0 / 10 us / 1 ms / 6 s, before or after the initial workers "
                 "went idle), tasks block on a gate that stays shut (keep-alive connections that never end) or end at once; random schedules; every run replayed on the Lean "
                 "LTS (dispatch branch, which worker starts which task); predicate: every dispatched task started although no task ended",
-        "required_tags": ["tasks:5", "tasks:gt16", "tasks:le4", "newthread:1", "queued:1", "presettle:0", "presettle:1", "srv:burst:5", "srv:burst:16"],
+        "required_tags": ["tasks:5", "tasks:gt16", "tasks:le4", "newthread:1", "queued:1", "presettle:0", "presettle:1", "srv:burst:5", "srv:burst:16", "srv:held"],
         "partial": ["theorem: every queued task is claimed by a woken worker (for all burst patterns and schedules); conservation and at-most-once start",
                     "whole-server isolation over real sockets (N simultaneous keep-alive connections) is sampled by the pristine burst batch"],
         "assumptions": CTL_ASSUMPTIONS,
@@ -208,7 +213,7 @@ PROPS = {
             {"bin": "pristine", "args": ["srv", "reclaim", 40], "name": "pristine thread reclamation, burst of 40"}],
         "replay_bin": "controlled", "oracle_col": "C20", "agree_col": "aC20",
         "rule": "same pool scenarios continued: gates opened, virtual time advanced past the idle period, live worker threads counted; then the pool is dropped and time advanced again",
-        "required_tags": ["timeoutwake:1", "burstlive:gt4", "burstlive:le4", "trickle:1", "srv:drop-tcp", "srv:drop-unix", "srv:drop-queued", "srv:reclaim:40"],
+        "required_tags": ["timeoutwake:1", "burstlive:gt4", "burstlive:le4", "trickle:1", "srv:drop-tcp", "srv:drop-unix", "srv:drop-unix-dead", "srv:drop-queued", "srv:reclaim:40"],
         "partial": ["theorem: at most MIN_THREADS untimed waiters / idle pool at baseline / retirement strands no task / accept loop stops after at most one more accept / handed-out requests stay answerable",
                     "observed only: connect() refused after drop, UNIX socket path removed, real thread counts (/proc/self/task)"],
         "assumptions": CTL_ASSUMPTIONS,
@@ -242,7 +247,7 @@ PROPS = {
         "partial": [], "assumptions": CTL_ASSUMPTIONS,
     },
     "C13": {
-        "batches": ctl_batches("seg", 40, 1500, per=4),
+        "batches": ctl_batches("seg", 48, 1800, per=4),
         "replay_bin": "controlled", "need": ["same", "nohang", "noabort"], "need_intent": False, "agr_need": ["heads", "bodies", "seq", "wire", "eof"],
         "rule": "for each conversation of a generated corpus (all framing kinds, malformed classes, upgrade, Expect): unsplit, EVERY single split point (conversations <= 260 bytes), "
                 "one byte at a time, random 2..8-way splits, the 1 KiB buffer boundaries; the in-memory socket returns exactly one written segment per read; metamorphic "
@@ -257,7 +262,7 @@ PROPS = {
                 "beyond usize::MAX (body absent / short), chunk sizes up to and beyond 16 hex digits, 1000..20000 headers, 0.1..3 MB lines, NUL/control/non-ASCII garbage, "
                 "truncation everywhere, TE lists with up to 200 NaN/inf/exponent q-values, corner headers, 1000-request pipelines; x handlers {no read, partial, full read} x {respond, drop}; "
                 "predicate: no abnormal exit, no panic anywhere in the process, largest single allocation <= 256 KiB + 16 x bytes sent + 8 x bytes received",
-        "required_tags": ["tag:cl", "tag:chunksize", "tag:te", "tag:line", "tag:headers", "tag:garbage", "tag:truncated", "tag:rst"],
+        "required_tags": ["tag:cl", "tag:chunksize", "tag:te", "tag:line", "tag:headers", "tag:garbage", "tag:truncated", "tag:rst", "tag:rstbody"],
         "partial": ["theorem: sizes the modelled logic asks for are bounded (small-body buffer <= 1024, discard reads <= 4 KiB, accepted lengths representable), TE comparison is a strict weak order, the model is total",
                     "observed only: completeness of the panic inventory, allocator behaviour, process exit status"],
         "assumptions": CONN_ASSUMPTIONS + ["the allocation bound includes the harness's own buffers for the observation (hence the terms in bytes sent/received)"],
